@@ -9,6 +9,7 @@ import (
 
 	"dawgsverif/areas/cachearea"
 	"dawgsverif/areas/digrapharea"
+	"dawgsverif/areas/dumparea"
 	"dawgsverif/areas/entityarea"
 	"dawgsverif/areas/idsetarea"
 	"dawgsverif/areas/reacharea"
@@ -20,6 +21,7 @@ var areas = map[string]map[string]cmd{
 	"cache":   {"replay": cachearea.Replay, "conc": cachearea.Conc},
 	"entity":  {"replay": entityarea.Replay},
 	"digraph": {"replay": digrapharea.Replay},
+	"dump":    {"child": dumparea.Child, "explore": dumparea.Explore},
 	"reach":   {"replay": reacharea.Replay},
 	"idset":   {"replay": idsetarea.Replay, "conc": idsetarea.Conc, "abba": idsetarea.Abba, "toggle": idsetarea.Toggle},
 }
